@@ -146,7 +146,14 @@ type targeted struct {
 
 const twoFuncs = "func inner(n int) int {\n\ttot := n + 100\n\treturn tot\n}\nfunc outer(n int) int {\n\tacc := n * 2\n\tt := inner(n)\n\treturn acc + t\n}\ng := 7\nprint(outer(3), g)\ng = g + outer(1)\nprint(g)\n"
 
+// caller and callee have a local of the same name; the callee runs while the caller's local is live
+const sameLocal = "func inner(n int) int {\n\tacc := n + 100\n\treturn acc\n}\nfunc outer(n int) int {\n\tacc := n * 2\n\tt := inner(n)\n\treturn acc + t\n}\nvar tot int = 0\nfor i := 0; i < 3; i++ {\n\ttot = tot + outer(i)\n}\nprint(tot, outer(5))\n"
+
 var renameTargeted = []targeted{
+	{sameLocal, map[string]string{"acc": "Acc", "inner": "inner", "outer": "outer", "n": "n", "t": "t", "tot": "tot", "i": "i"}, "case-variant"},
+	{sameLocal, map[string]string{"acc": "ACC", "inner": "Inner", "outer": "Outer", "n": "N", "t": "T", "tot": "Tot", "i": "I"}, "case-variant"},
+	{sameLocal, map[string]string{"acc": "Value", "inner": "inner", "outer": "outer", "n": "Num", "t": "t", "tot": "Total", "i": "Idx"}, "case-variant"},
+	{sameLocal, map[string]string{"acc": "a_very_long_local_name_that_goes_on_and_on_0123456789", "inner": "inner", "outer": "outer", "n": "n", "t": "t", "tot": "tot", "i": "i"}, "plain"},
 	{twoFuncs, map[string]string{"outer": "sum", "acc": "sq_acc", "inner": "sum_sq", "tot": "acc", "g": "total", "n": "n", "t": "t"}, "concat-collision"},
 	{twoFuncs, map[string]string{"outer": "get", "acc": "count", "inner": "get_count", "tot": "x", "g": "get_count_x", "n": "n", "t": "t"}, "concat-collision"},
 	{twoFuncs, map[string]string{"outer": "a", "acc": "b_c", "inner": "a_b", "tot": "c", "g": "a_b_c", "n": "n", "t": "t"}, "concat-collision"},
